@@ -54,6 +54,9 @@ type Scenario struct {
 	StartRefused   bool              `json:"start_refused"` // nothing listens on the remote's port before the peer starts
 	FinalCloseMs   int               `json:"final_close_ms"` // how long the teardown waits for Close (default 8000)
 	HoldDownMs     int               `json:"holddown_ms"`   // shorten the 60..300 s hold-down timer to this (process-wide while the scenario runs)
+	CapsSeq        [][][2]any        `json:"caps_seq"`       // GetCapabilities returns the k-th list on its k-th call (then the last one)
+	HandlerWriteN  int               `json:"handler_write_n"` // number of WriteUpdate calls made for a handler_writes entry (default 1)
+	OnCloseDelayMs int               `json:"onclose_delay_ms"`
 	NilHandler     bool              `json:"nil_handler"`   // OnEstablished returns a nil UpdateMessageHandler
 	OnCloseWrite   string            `json:"onclose_write"` // body to WriteUpdate from inside OnClose (recorded as write "onclose")
 	FirstOnly      bool              `json:"first_only"` // plugin script (on_open, handler, delays) applies to the first session only
@@ -167,6 +170,13 @@ type plugin struct {
 	nUpdate atomic.Int32
 	nOpen   atomic.Int32
 	nEst    atomic.Int32
+	nCaps   atomic.Int32
+	keptMu  sync.Mutex
+	kept    []keptCap // capability values handed to OnOpenMessage, kept by reference and as a copy
+}
+
+type keptCap struct {
+	ref, cp []byte
 }
 
 func (p *plugin) scripted(n int32) bool { return !p.sc.FirstOnly || n <= 1 }
@@ -201,15 +211,30 @@ func (p *plugin) GetCapabilities(bgp.PeerConfig) []bgp.Capability {
 	if p.sc.CapsDelayMs > 0 {
 		time.Sleep(time.Duration(p.sc.CapsDelayMs) * time.Millisecond)
 	}
+	if n := len(p.sc.CapsSeq); n > 0 {
+		k := int(p.nCaps.Add(1)) - 1
+		if k >= n {
+			k = n - 1
+		}
+		var out []bgp.Capability
+		for _, c := range p.sc.CapsSeq[k] {
+			v, _ := hex.DecodeString(c[1].(string))
+			out = append(out, bgp.Capability{Code: uint8(c[0].(float64)), Value: v})
+		}
+		return out
+	}
 	return capsOf(p.sc)
 }
 
 func (p *plugin) OnOpenMessage(_ bgp.PeerConfig, id netip.Addr, caps []bgp.Capability) *bgp.Notification {
 	var sb strings.Builder
 	sb.WriteString(id.String())
+	p.keptMu.Lock()
 	for _, c := range caps {
 		fmt.Fprintf(&sb, " %d:%s", c.Code, hex.EncodeToString(c.Value))
+		p.kept = append(p.kept, keptCap{ref: c.Value, cp: append([]byte(nil), c.Value...)})
 	}
+	p.keptMu.Unlock()
 	p.log("OnOpenMessage", "enter", sb.String())
 	defer p.log("OnOpenMessage", "exit", "")
 	if !p.scripted(p.nOpen.Add(1)) {
@@ -258,7 +283,13 @@ func (p *plugin) OnEstablished(_ bgp.PeerConfig, w bgp.UpdateMessageWriter) bgp.
 		}
 		if body, ok := p.sc.HandlerWrites[fmt.Sprint(i)]; ok {
 			b, _ := hex.DecodeString(body)
-			p.run.recordWrite("handler", w.WriteUpdate(b), 0)
+			n := p.sc.HandlerWriteN
+			if n < 1 {
+				n = 1
+			}
+			for j := 0; j < n; j++ {
+				p.run.recordWrite("handler", w.WriteUpdate(b), 0)
+			}
 		}
 		if i < len(p.sc.Handler) {
 			return notifOf(p.sc.Handler[i])
@@ -269,6 +300,9 @@ func (p *plugin) OnEstablished(_ bgp.PeerConfig, w bgp.UpdateMessageWriter) bgp.
 
 func (p *plugin) OnClose(bgp.PeerConfig) {
 	p.log("OnClose", "enter", "")
+	if p.sc.OnCloseDelayMs > 0 {
+		time.Sleep(time.Duration(p.sc.OnCloseDelayMs) * time.Millisecond)
+	}
 	if p.sc.OnCloseWrite != "" {
 		p.run.mu.Lock()
 		w := p.run.writer
@@ -629,6 +663,35 @@ func (r *runner) step(st []any) error {
 		r.mu.Lock()
 		r.res.API = append(r.res.API, APICall{Name: name, Err: e, Ms: time.Since(t0).Milliseconds(), At: at})
 		r.mu.Unlock()
+	case "delete2": // two DeletePeer calls for the same peer at once: exactly one finds it
+		var wg sync.WaitGroup
+		errs := make([]error, 2)
+		t0 := time.Now()
+		at := r.ms()
+		for j := 0; j < 2; j++ {
+			wg.Add(1)
+			go func(j int) { defer wg.Done(); errs[j] = r.srv.DeletePeer(r.remote) }(j)
+			time.Sleep(time.Duration(num(st[1])) * time.Millisecond)
+		}
+		dd := make(chan struct{})
+		go func() { wg.Wait(); close(dd) }()
+		select {
+		case <-dd:
+			for j := 0; j < 2; j++ {
+				e := ""
+				if errs[j] != nil {
+					e = errs[j].Error()
+				}
+				r.mu.Lock()
+				r.res.API = append(r.res.API, APICall{Name: "delete2", Err: e, Ms: time.Since(t0).Milliseconds(), At: at})
+				r.mu.Unlock()
+			}
+			r.plug.log("API-RETURN", "delete", "")
+		case <-time.After(6 * time.Second):
+			r.mu.Lock()
+			r.res.API = append(r.res.API, APICall{Name: "delete2", Err: "TIMEOUT", Ms: time.Since(t0).Milliseconds(), At: at})
+			r.mu.Unlock()
+		}
 	case "api_async":
 		name := st[1].(string)
 		at := r.ms()
@@ -984,6 +1047,14 @@ func runScenario(sc *Scenario) *Result {
 			res.Error += fmt.Sprintf(" delivered-slice-%d-modified", i)
 		}
 	}
+	r.plug.keptMu.Lock()
+	for i, kc := range r.plug.kept {
+		if string(kc.ref) != string(kc.cp) {
+			res.Error += fmt.Sprintf(" capability-value-%d-modified-after-OnOpenMessage", i)
+			break
+		}
+	}
+	r.plug.keptMu.Unlock()
 	// freeze the inbound-connection records (corebgp may still close one later: that is then too late)
 	snap := make([]*Inbound, 0, len(res.Inbound))
 	for _, in := range res.Inbound {
